@@ -92,7 +92,7 @@ class C05(Prop):
             "matrices <= 7x7 against brute force; planted C1P matrices up to 40x40 and Tucker obstructions M_I(k), "
             "M_IV, M_V embedded under random permutations with duplicated and zero rows/columns; non-trivial = >= 2 "
             "distinct non-empty rows")
-    budget = {"quick": 300, "thorough": 3000}
+    budget = {"quick": 300, "thorough": 10000}
     anchors = [("preflibtools.properties.subdomains.consecutive_ones", n) for n in
                ("solve_consecutive_ones", "reorder_sets", "isC1P", "P.set_contiguous", "Q.set_contiguous", "_flatten")] + \
               [("preflibtools.properties.subdomains.dichotomous.interval", n) for n in
